@@ -15,7 +15,8 @@ import re
 
 SAFE_STR_METHODS = {"upper", "lower", "casefold", "strip", "lstrip", "rstrip", "startswith", "endswith", "split",
                     "rsplit", "join", "replace", "find", "rfind", "count", "title", "capitalize", "isdigit",
-                    "isalpha", "isspace", "ljust", "rjust", "splitlines", "partition", "format", "swapcase", "index"}
+                    "isalpha", "isspace", "ljust", "rjust", "splitlines", "partition", "rpartition", "format", "swapcase", "index",
+                    "isdecimal", "isnumeric", "isascii", "isalnum", "removeprefix", "removesuffix", "zfill", "center"}
 RE_FLAGS = {"IGNORECASE": re.IGNORECASE, "I": re.IGNORECASE, "ASCII": re.ASCII, "A": re.ASCII, "VERBOSE": re.VERBOSE,
             "X": re.VERBOSE, "MULTILINE": re.MULTILINE, "M": re.MULTILINE, "DOTALL": re.DOTALL, "S": re.DOTALL,
             "UNICODE": re.UNICODE, "U": re.UNICODE}
@@ -298,6 +299,14 @@ def fold(e, env=None):
                     return getattr(recv, f.attr)(*args)
                 except Exception as ex:  # noqa
                     raise NotConst("str method failed: %s" % ex)
+        if isinstance(f, ast.Attribute) and f.attr in ("issuperset", "issubset", "isdisjoint") and len(e.args) == 1 and not e.keywords:
+            recv = fold(f.value, env)
+            if isinstance(recv, (set, frozenset)):
+                arg = fold(e.args[0], env)
+                try:
+                    return getattr(recv, f.attr)(arg)
+                except Exception as ex:  # noqa
+                    raise NotConst("set method failed: %s" % ex)
         if isinstance(f, ast.Attribute) and f.attr in ("get",):
             recv = fold(f.value, env)
             if isinstance(recv, dict):
